@@ -5,7 +5,7 @@ res = {}
 ev = "/verif/evidence"
 saved = {f: open(os.path.join(ev, f), "rb").read() for f in os.listdir(ev) if f.endswith(".json")}
 for pid in ids:
-    for x in ("R", "S"):
+    for x in tuple(os.environ.get("VARIANTS", "R S").split()):
         p = f"/tmp/harmless/{pid}/{x}/patch.diff"
         if not os.path.exists(p):
             continue
